@@ -1046,6 +1046,7 @@ pub fn peer_sender(seed: u64, family: &str, exact: bool) -> Scenario {
     // exact sub-variant: a compliant sender fills the advertised window exactly while the reader
     // sleeps (window closes), then the reader drains (window must be re-announced at once)
     let zero_window_variant = exact && r.chance(0.2);
+    let mut quick_reader = false;
     if zero_window_variant {
         let buf = r.range((3 * link_v) as u64, (8 * link_v) as u64) as usize;
         opts.rx_buf = Some(buf);
@@ -1059,6 +1060,8 @@ pub fn peer_sender(seed: u64, family: &str, exact: bool) -> Scenario {
             let rem = r.range(mss as u64, s as u64 - 1) as usize;
             opts.rx_buf = Some(s + rem);
             k = 1;
+            // the reader drains right behind the packet, before any timer polls the connection
+            quick_reader = r.chance(0.6);
         }
         pkts = vec![s as u16; k];
         steps.clear();
@@ -1070,7 +1073,8 @@ pub fn peer_sender(seed: u64, family: &str, exact: bool) -> Scenario {
     }
     // endpoint application
     let reader: Vec<ROp> = if zero_window_variant {
-        vec![ROp::Sleep(r.range(800, 2500)), ROp::Read { n: u64::MAX, buf: r.log_range(64, 65536) as usize, vectored: false }]
+        let nap = if quick_reader { r.range(3, 35) } else { r.range(800, 2500) };
+        vec![ROp::Sleep(nap), ROp::Read { n: u64::MAX, buf: r.log_range(64, 65536) as usize, vectored: false }]
     } else if exact {
         vec![ROp::Read { n: u64::MAX, buf: r.log_range(64, 65536) as usize, vectored: r.chance(0.2) }]
     } else {
